@@ -81,7 +81,9 @@ class LRUCacheStore(Store):
         _logger.debug(f"Fetching key {key}")
         res = self._store.fetch_blob(key)
         _logger.debug(f"Fetching key {key} completed: {type(res)}")
-        self._cache.put(key, res)
+        # The stores also answer None for a blob that they do not hold: only cache what is stored.
+        if res is not None or self._store.has_blob(key):
+            self._cache.put(key, res)
         return res
 
     def store_blob(self, key: PyHash, blob: Any, codec: Optional[ProtocolRef]) -> None:
